@@ -52,6 +52,12 @@ unsafe fn next() -> Resp {
     SCRIPT.get(i).copied().unwrap_or(Resp::Reset)
 }
 unsafe fn fail(e: c_int) -> libc::ssize_t {
+    if e == libc::EAGAIN {
+        // optional: the kernel takes a while to say "would block" (lets a real SO_*TIMEO limit expire during a replay)
+        if let Some(ms) = std::env::var("OCV_EAGAIN_SLEEP_MS").ok().and_then(|v| v.parse::<u64>().ok()) {
+            std::thread::sleep(std::time::Duration::from_millis(ms));
+        }
+    }
     LAST_ERRNO = e;
     syscall::set_errno(e);
     -1
@@ -202,6 +208,15 @@ fn main() {
                 }
             }
             let (fd, _peer) = socketpair(blocking);
+            if let Ok(ms) = std::env::var("OCV_LIMIT_MS") {
+                let ms: i64 = ms.parse().expect("OCV_LIMIT_MS");
+                let tv = libc::timeval { tv_sec: ms / 1000, tv_usec: (ms % 1000) * 1000 };
+                for opt in [libc::SO_RCVTIMEO, libc::SO_SNDTIMEO] {
+                    assert_eq!(0, unsafe {
+                        libc::setsockopt(fd, libc::SOL_SOCKET, opt, (&raw const tv).cast(), std::mem::size_of::<libc::timeval>() as libc::socklen_t)
+                    });
+                }
+            }
             let mut buf = [0x11u8; 64];
             for (i, b) in buf.iter_mut().enumerate() {
                 *b = 0x40 + i as u8;
@@ -525,6 +540,219 @@ fn main() {
             }
             println!("{{\"runs\": {runs}, \"bad\": [{}]}}", bad.join(","));
             // items stranded behind a stale length make the queue's Drop assertion fire: leave without running destructors
+            std::process::exit(0);
+        }
+        // join_cross_loop <tasks>: two event loops; trivial tasks are submitted and joined with a 1 s timeout. Prints, per task,
+        // whether it ran, on which thread, and whether the join found its result.
+        "join_cross_loop" => {
+            use std::sync::atomic::{AtomicUsize, Ordering};
+            use std::sync::Mutex;
+            static RAN: AtomicUsize = AtomicUsize::new(0);
+            static NAMES: Mutex<Vec<(usize, String)>> = Mutex::new(Vec::new());
+            let mut cfg = open_coroutine_core::config::Config::single();
+            cfg.set_hook(false);
+            cfg.set_event_loop_size(2);
+            open_coroutine_core::net::EventLoops::init(&cfg);
+            let n = num(2) as usize;
+            let mut out = Vec::new();
+            for i in 0..n {
+                let before = RAN.load(Ordering::SeqCst);
+                let h = open_coroutine_core::net::EventLoops::submit_task(
+                    None,
+                    move |_| {
+                        NAMES.lock().unwrap().push((i, std::thread::current().name().unwrap_or("?").to_string()));
+                        _ = RAN.fetch_add(1, Ordering::SeqCst);
+                        Some(1000 + i)
+                    },
+                    None,
+                    None,
+                );
+                let t0 = Instant::now();
+                let r = h.timeout_join(std::time::Duration::from_secs(1));
+                let waited = t0.elapsed().as_millis();
+                let ran = RAN.load(Ordering::SeqCst) > before;
+                let thread = NAMES.lock().unwrap().iter().find(|(j, _)| *j == i).map(|(_, n)| n.clone()).unwrap_or_default();
+                let joined = match r { Ok(Ok(Some(v))) => format!("{v}"), Ok(Ok(None)) => "null".into(), Ok(Err(_)) => "\"task error\"".into(), Err(_) => "\"timeout\"".into() };
+                out.push(format!("{{\"task\": {i}, \"ran\": {ran}, \"thread\": \"{thread}\", \"join\": {joined}, \"waited_ms\": {waited}}}"));
+            }
+            println!("{{\"tasks\": [{}]}}", out.join(","));
+            std::process::exit(0);
+        }
+        // ows_history <cap> <op>...: single-threaded history on an OrderedWorkStealQueue with two local handles. ops: `p<l>:<prio>`
+        // push the next item number to local l, `o<l>` pop from local l, `g:<prio>` push to the shared queue. A watchdog aborts
+        // with exit code 3 when one operation does not return within 2 s. Prints every pop result and the final occupancy.
+        "ows_history" => {
+            use std::sync::atomic::{AtomicUsize, Ordering};
+            static PROGRESS: AtomicUsize = AtomicUsize::new(0);
+            static DONE: AtomicUsize = AtomicUsize::new(0);
+            let cap = num(2) as usize;
+            let q = open_coroutine_core::common::ordered_work_steal::OrderedWorkStealQueue::<usize>::new(2, cap);
+            let l = [q.local_queue(), q.local_queue()];
+            let ops: Vec<String> = args[3..].to_vec();
+            let nops = ops.len();
+            std::thread::spawn(move || {
+                let mut last = (0usize, Instant::now());
+                loop {
+                    std::thread::sleep(std::time::Duration::from_millis(50));
+                    if DONE.load(Ordering::SeqCst) == 1 { return; }
+                    let p = PROGRESS.load(Ordering::SeqCst);
+                    if p != last.0 { last = (p, Instant::now()); }
+                    if last.1.elapsed().as_secs() >= 2 {
+                        println!("{{\"spin_at_op\": {p}, \"ops\": {nops}}}");
+                        std::process::exit(3);
+                    }
+                }
+            });
+            let mut next = 0usize;
+            let mut out = Vec::new();
+            for (i, op) in ops.iter().enumerate() {
+                PROGRESS.store(i, Ordering::SeqCst);
+                let b = op.as_bytes();
+                match b[0] {
+                    b'p' => {
+                        let li = (b[1] - b'0') as usize;
+                        let prio: i64 = op[3..].parse().expect("prio");
+                        l[li].push_with_priority(prio, next);
+                        next += 1;
+                    }
+                    b'g' => {
+                        let prio: i64 = op[2..].parse().expect("prio");
+                        q.push_with_priority(prio, next);
+                        next += 1;
+                    }
+                    b'o' => {
+                        let li = (b[1] - b'0') as usize;
+                        let r = l[li].pop();
+                        out.push(format!("{{\"op\": {i}, \"local\": {li}, \"got\": {}}}", r.map_or("null".to_string(), |v| v.to_string())));
+                    }
+                    _ => panic!("bad op {op}"),
+                }
+            }
+            DONE.store(1, Ordering::SeqCst);
+            println!("{{\"pushed\": {next}, \"pops\": [{}], \"len_seen_by_local0\": {}, \"shared_len\": {}}}", out.join(","), l[0].len(), q.len());
+            std::process::exit(0);
+        }
+        // beans_race <rounds> <threads>: threads released together ask for the same fresh name; counts rounds in which they did not
+        // all get the instance a later lookup returns.
+        "beans_race" => {
+            use open_coroutine_core::common::beans::BeanFactory;
+            use std::sync::{Arc, Barrier};
+            #[derive(Default)]
+            struct Bean(#[allow(dead_code)] u64);
+            let (rounds, threads) = (num(2) as usize, num(3) as usize);
+            let mut diverging = 0;
+            for r in 0..rounds {
+                let name: &'static str = Box::leak(format!("ocv-bean-{r}").into_boxed_str());
+                let barrier = Arc::new(Barrier::new(threads));
+                let hs: Vec<_> = (0..threads).map(|_| { let b = barrier.clone(); std::thread::spawn(move || { b.wait(); std::ptr::from_ref(BeanFactory::get_or_default::<Bean>(name)) as usize }) }).collect();
+                let got: Vec<usize> = hs.into_iter().map(|h| h.join().unwrap()).collect();
+                let later = std::ptr::from_ref(BeanFactory::get_or_default::<Bean>(name)) as usize;
+                if got.iter().any(|g| *g != later) { diverging += 1; }
+            }
+            println!("{{\"rounds\": {rounds}, \"threads\": {threads}, \"diverging_rounds\": {diverging}}}");
+        }
+        // join_race <tasks> <timeout_ms>: ONE event loop; trivial tasks are submitted and joined at once with the given timeout.
+        // A join that waited its whole timeout although the task ran is a lost wake-up (or a lost result).
+        "join_race" => {
+            use std::sync::atomic::{AtomicUsize, Ordering};
+            static RAN: AtomicUsize = AtomicUsize::new(0);
+            init_event_loops();
+            let (n, to) = (num(2) as usize, num(3) as u64);
+            let (mut slow, mut lost) = (0, 0);
+            for i in 0..n {
+                let before = RAN.load(Ordering::SeqCst);
+                let h = open_coroutine_core::net::EventLoops::submit_task(None, move |_| { _ = RAN.fetch_add(1, Ordering::SeqCst); Some(i) }, None, None);
+                let t0 = Instant::now();
+                let r = h.timeout_join(std::time::Duration::from_millis(to));
+                let waited = t0.elapsed().as_millis() as u64;
+                // give a late task time to finish before deciding that it ran
+                let t1 = Instant::now();
+                while RAN.load(Ordering::SeqCst) == before && t1.elapsed().as_millis() < 200 { std::thread::yield_now(); }
+                let ran = RAN.load(Ordering::SeqCst) > before;
+                if ran && waited >= to { slow += 1; }
+                if ran && !matches!(r, Ok(Ok(Some(v))) if v == i) { lost += 1; }
+            }
+            println!("{{\"tasks\": {n}, \"timeout_ms\": {to}, \"joins_that_waited_the_whole_timeout\": {slow}, \"joins_without_the_result\": {lost}}}");
+            std::process::exit(0);
+        }
+        // pool_cancel: (1) a queued task is cancelled before it starts; its waiter then waits with a 300 ms timeout.
+        // (2) a task that is suspended (delay) is cancelled; afterwards the pool's running size and the time stop() needs are printed.
+        "pool_cancel" => {
+            use open_coroutine_core::co_pool::CoroutinePool;
+            use std::sync::atomic::{AtomicUsize, Ordering};
+            static RAN: AtomicUsize = AtomicUsize::new(0);
+            let mut pool = CoroutinePool::new(String::from("ocv-pool"), 128 * 1024, 0, 1, 0);
+            let id = pool.submit_task(Some(String::from("ocv-cancelled")), |_| { _ = RAN.fetch_add(1, Ordering::SeqCst); Some(1) }, None, None).expect("submit");
+            CoroutinePool::try_cancel_task(id);
+            eprintln!("pool_cancel: scheduling after cancel");
+            pool.try_schedule_task().expect("schedule");
+            eprintln!("pool_cancel: waiting for the cancelled task");
+            let t0 = Instant::now();
+            let r = pool.wait_task_result(id, std::time::Duration::from_millis(300));
+            let waited = t0.elapsed().as_millis();
+            let ran1 = RAN.load(Ordering::SeqCst);
+            let wait_result = match r { Ok(Ok(_)) => "value", Ok(Err(_)) => "error", Err(_) => "timeout" };
+            if args.get(2).map(String::as_str) == Some("1") {
+                println!("{{\"cancelled_before_start\": {{\"ran\": {ran1}, \"waiter\": \"{wait_result}\", \"waited_ms\": {waited}}}}}");
+                std::process::exit(0);
+            }
+            if args.get(2).map(String::as_str) == Some("stop") {
+                // a waiter registration is left behind by the timed-out wait above: stop() has to settle it
+                eprintln!("pool_cancel: stopping the pool with a waiter registration left");
+                let t1 = Instant::now();
+                let stop = pool.stop(std::time::Duration::from_millis(500));
+                println!("{{\"stop_ok\": {}, \"stop_ms\": {}}}", stop.is_ok(), t1.elapsed().as_millis());
+                std::process::exit(0);
+            }
+            // (2)
+            let id2 = pool.submit_task(Some(String::from("ocv-suspended")), |_| {
+                if let Some(s) = open_coroutine_core::scheduler::SchedulableSuspender::current() {
+                    s.delay(std::time::Duration::from_millis(100));
+                }
+                Some(2)
+            }, None, None).expect("submit");
+            eprintln!("pool_cancel: part 2, first schedule");
+            pool.try_schedule_task().expect("schedule");
+            eprintln!("pool_cancel: part 2, scheduled");
+            let running_while_suspended = pool.get_running_size();
+            CoroutinePool::try_cancel_task(id2);
+            std::thread::sleep(std::time::Duration::from_millis(150));
+            pool.try_schedule_task().expect("schedule");
+            pool.try_schedule_task().expect("schedule");
+            let running_after_cancel = pool.get_running_size();
+            let t1 = Instant::now();
+            let stop = pool.stop(std::time::Duration::from_millis(1500));
+            let stop_ms = t1.elapsed().as_millis();
+            println!("{{\"cancelled_before_start\": {{\"ran\": {ran1}, \"waiter\": \"{wait_result}\", \"waited_ms\": {waited}}}, \"cancelled_while_suspended\": {{\"running_while_suspended\": {running_while_suspended}, \"running_after_cancel\": {running_after_cancel}, \"stop_ok\": {}, \"stop_ms\": {stop_ms}}}}}", stop.is_ok());
+            std::process::exit(0);
+        }
+        // co_leak <delay|cancel> <ts>: coroutine A yields with a delay / cancel request made while it is in a system-call state;
+        // then coroutine B, on the same thread, does a plain suspend. Prints what B's resume reports.
+        "co_leak" => {
+            use open_coroutine_core::common::constants::{CoroutineState, SyscallName, SyscallState};
+            use open_coroutine_core::coroutine::suspender::Suspender;
+            use open_coroutine_core::coroutine::Coroutine;
+            type Co = Coroutine<'static, (), (), Option<usize>>;
+            let cancel = args[2] == "cancel";
+            let ts = num(3) as u64;
+            let mut a: Co = Coroutine::new(Some(String::from("ocv-a")), move |s: &Suspender<(), ()>, ()| {
+                let co = Co::current().expect("current");
+                co.syscall((), SyscallName::nanosleep, SyscallState::Executing).expect("syscall");
+                if cancel {
+                    s.cancel();
+                } else {
+                    co.syscall((), SyscallName::nanosleep, SyscallState::Suspend(ts)).expect("syscall suspend");
+                    s.until(ts);
+                }
+                None
+            }, None, None).expect("create a");
+            let mut b: Co = Coroutine::new(Some(String::from("ocv-b")), |s: &Suspender<(), ()>, ()| { s.suspend(); None }, None, None).expect("create b");
+            let ra = a.resume().expect("resume a");
+            let rb = b.resume().expect("resume b");
+            let ok = rb == CoroutineState::Suspend((), 0);
+            println!("{{\"a_reports\": \"{ra:?}\", \"b_reports\": \"{rb:?}\", \"b_plain_suspend_reported_correctly\": {ok}}}");
+            std::mem::forget(a);
+            std::mem::forget(b);
             std::process::exit(0);
         }
         // local_drop <n>: store n values with a counting destructor in a coroutine-local, drop the local
